@@ -12,6 +12,7 @@ NW = {
     'nw_inc_unguarded': {'VIOLATION'}, 'nw_inc_guarded': {'PASS'}, 'nw_inc_guarded_lt': {'PASS'},
     'nw_hdr_wrong_guard': {'PASS', 'VIOLATION'}, 'nw_hdr_right_guard': {'PASS'},
     'nw_builtin_checked': {'PASS'}, 'nw_builtin_flag_ignored': {'VIOLATION'},
+    'nw_compute_then_check': {'PASS'}, 'nw_compute_then_check_wrong': {'VIOLATION'}, 'nw_reject_form': {'PASS'},
     'nw_sum_guarded': {'PASS'}, 'nw_sum_unguarded': {'VIOLATION'}, 'nw_const_mul_guarded': {'PASS'},
 }
 HO = {'ho_bad': True, 'ho_good': False}
